@@ -137,6 +137,9 @@ func propagates(v ssa.Value) (bool, string) {
 				if t.Val != v {
 					continue
 				}
+				if underEOFGuard(v, t.Block()) {
+					continue // stored only when it is io.EOF: no sink for a real failure
+				}
 				switch a := t.Addr.(type) {
 				case *ssa.Alloc:
 					if a.Heap {
@@ -216,6 +219,27 @@ func propagates(v ssa.Value) (bool, string) {
 		return false, ""
 	}
 	return walk(v)
+}
+
+// underEOFGuard: block b is only reached when v == io.EOF.
+func underEOFGuard(v ssa.Value, b *ssa.BasicBlock) bool {
+	for _, g := range dominatingGuards(b) {
+		cmp, ok := g.Cond.(*ssa.BinOp)
+		if !ok || !(cmp.Op == token.EQL && g.Val || cmp.Op == token.NEQ && !g.Val) {
+			continue
+		}
+		for _, side := range [][2]ssa.Value{{cmp.X, cmp.Y}, {cmp.Y, cmp.X}} {
+			if side[0] != v {
+				continue
+			}
+			if u, ok := side[1].(*ssa.UnOp); ok && u.Op == token.MUL {
+				if gl, ok := u.X.(*ssa.Global); ok && gl.Pkg != nil && gl.Pkg.Pkg.Path() == "io" && gl.Name() == "EOF" {
+					return true
+				}
+			}
+		}
+	}
+	return false
 }
 
 // handledByBranch: cmp is `v != nil` / `v == nil`; reports whether the region of the CFG that is
@@ -361,8 +385,62 @@ func returnsNilError(r *ssa.Return) bool {
 	if idx < 0 || idx >= len(r.Results) {
 		return false
 	}
-	c, ok := r.Results[idx].(*ssa.Const)
+	c, ok := unspillResult(r, r.Results[idx]).(*ssa.Const)
 	return ok && c.IsNil()
+}
+
+// unspillResult: in a function with a defer (or named results) go/ssa spills the results into local cells and the
+// Return loads them back (`*r0`); the value returned is what was last stored into that cell on the way to the
+// return - in the return's own block, or, when every predecessor path agrees, before it.
+func unspillResult(r *ssa.Return, v ssa.Value) ssa.Value {
+	ld, ok := v.(*ssa.UnOp)
+	if !ok || ld.Op != token.MUL {
+		return v
+	}
+	al, ok := ld.X.(*ssa.Alloc)
+	if !ok {
+		return v
+	}
+	var lastStore func(b *ssa.BasicBlock, before int, seen map[*ssa.BasicBlock]bool) (ssa.Value, bool)
+	lastStore = func(b *ssa.BasicBlock, before int, seen map[*ssa.BasicBlock]bool) (ssa.Value, bool) {
+		for i := before - 1; i >= 0; i-- {
+			if st, ok := b.Instrs[i].(*ssa.Store); ok && st.Addr == ssa.Value(al) {
+				return st.Val, true
+			}
+		}
+		if seen[b] || len(b.Preds) == 0 {
+			return nil, false
+		}
+		seen[b] = true
+		var val ssa.Value
+		for _, pd := range b.Preds {
+			pv, ok := lastStore(pd, len(pd.Instrs), seen)
+			if !ok {
+				return nil, false
+			}
+			if val == nil {
+				val = pv
+			} else if val != pv {
+				// different values on different paths: equal constants are fine
+				c1, ok1 := val.(*ssa.Const)
+				c2, ok2 := pv.(*ssa.Const)
+				if !(ok1 && ok2 && c1.IsNil() && c2.IsNil()) {
+					return nil, false
+				}
+			}
+		}
+		return val, val != nil
+	}
+	idx := len(r.Block().Instrs)
+	for i, in := range r.Block().Instrs {
+		if in == ssa.Instruction(ld) {
+			idx = i
+		}
+	}
+	if sv, ok := lastStore(r.Block(), idx, map[*ssa.BasicBlock]bool{}); ok {
+		return sv
+	}
+	return v
 }
 
 // mayReportSuccess: the error result is nil, or the forwarded result of another call (`return f(x)`),
@@ -375,7 +453,7 @@ func mayReportSuccess(r *ssa.Return) bool {
 	if idx < 0 || idx >= len(r.Results) {
 		return false
 	}
-	v := r.Results[idx]
+	v := unspillResult(r, r.Results[idx])
 	if ex, ok := v.(*ssa.Extract); ok {
 		v = ex.Tuple
 	}
@@ -768,7 +846,9 @@ func r31SuccessAfterUnchecked(c *Ctx) {
 				if rb == from && !precedes(call, r) {
 					continue
 				}
-				if why := errSettledBefore(p, aliases, call, r); why != "" {
+				// the error of a Read has no `try something else` idiom: on every path it is nil, io.EOF, or handed on
+				strict := call.Common().IsInvoke() && call.Common().Method.Name() == "Read"
+				if why := errSettledBefore(p, aliases, call, r, strict); why != "" {
 					continue
 				}
 				c.bad(key, p.instrPos(r), fmt.Sprintf("success (nil error) is returned at %s on a path from the call of %s at %s on which its error was neither tested nor handed on: when the call fails on that path the failure is swallowed", p.instrPos(r), name, p.instrPos(call)))
@@ -822,7 +902,7 @@ func errAliases(v ssa.Value) map[ssa.Value]bool {
 // errSettledBefore: "" when some path leads from the call to the return r without crossing a branch edge that
 // establishes `error is nil` (or `error is io.EOF`), a block in which the error reaches a sink, or a
 // repetition of the same operation; otherwise the reason the return is fine.
-func errSettledBefore(p *Prog, aliases map[ssa.Value]bool, call *ssa.Call, r *ssa.Return) string {
+func errSettledBefore(p *Prog, aliases map[ssa.Value]bool, call *ssa.Call, r *ssa.Return, strict bool) string {
 	rb := r.Block()
 	obj := calleeObj(call)
 	// position of the first sink / retry per block (instructions after the call in the call's own block)
@@ -901,10 +981,15 @@ func errSettledBefore(p *Prog, aliases map[ssa.Value]bool, call *ssa.Call, r *ss
 			// a branch on the error itself (either way): what follows is a decision taken in knowledge of the
 			// failure (type inference falls back to the next type, end of input ends a loop); whether the
 			// failure side reports is clause (a)'s business
-			if condSettlesErr(iff.Cond, true, aliases) || condSettlesErr(iff.Cond, false, aliases) {
+			if !strict && (condSettlesErr(iff.Cond, true, aliases) || condSettlesErr(iff.Cond, false, aliases)) {
 				return false
 			}
-			for si := range []bool{true, false} {
+			for si, val := range []bool{true, false} {
+				// strict (errors of io.Reader.Read): only the side on which the error is nil - or is io.EOF -
+				// may report success; on the other side the error has to go somewhere
+				if strict && condSettlesErr(iff.Cond, val, aliases) {
+					continue
+				}
 				if visit(b.Succs[si], 0) {
 					return true
 				}
